@@ -226,6 +226,7 @@ func (n *cliNet) deliver(nr *netReq) {
 	}
 	nr.delivered = true
 	nr.deliveredAt = n.r.Now()
+	n.r.Log("net", "%v #%d delivered", nr.deliveredAt, nr.id)
 	f := nr.fate
 	resp := nr.resp
 	switch f.fault {
